@@ -4,7 +4,7 @@ import common
 import algos
 
 ID = "C14"
-ANCHORS = ["corankco/algorithms/rank_aggregation_algorithm.py", "corankco/algorithms/bioconsert/bioconsert.py",
+ANCHORS = ["corankco/algorithms/algorithm_choice.py", "corankco/algorithms/rank_aggregation_algorithm.py", "corankco/algorithms/bioconsert/bioconsert.py",
            "corankco/algorithms/borda/borda.py", "corankco/algorithms/pickaperm/pickaperm.py",
            "corankco/algorithms/parcons/parcons.py", "corankco/scoringscheme.py"]
 RULE = ("random algorithm configurations up to nesting depth 2 (BioConsert with starters, ParCons with auxiliaries, with "
@@ -13,7 +13,10 @@ RULE = ("random algorithm configurations up to nesting depth 2 (BioConsert with 
         "compared: value of is_scoring_scheme_relevant_when_incomplete_rankings (or the exception it raises) vs the model; "
         "predicate: the question is answered without failing; answered true => the incomplete dataset is accepted with a "
         "well-formed consensus; the complete dataset is always accepted; for Borda / PickAPerm / BioCo / BioConsert started "
-        "from them: incomplete refused <=> answered false; non-trivial = nested configuration or near-miss scheme; "
+        "from them: incomplete refused <=> answered false; one case in five goes through the selector get_algorithm(enum "
+        "member, parameters the named class accepts): the configuration read off the returned object, Algorithm.get_all() "
+        "and get_all_compatible_with_any_scoring_scheme() are compared with the model's, and a member listed as compatible "
+        "with any scheme must (default parameters) answer true and accept the incomplete dataset; non-trivial = nested configuration or near-miss scheme; "
         "distinct by JSON")
 TRUSTED = common.TRUSTED_BASE + ["hand translation of the applicability predicates and refusal guards (tied by this run)",
                                  "ILP solver / igraph for the configurations that use them"]
@@ -27,6 +30,9 @@ def budget(tier):
 def gen(rng, index, tier):
     standin = rng.random() < 0.25
     config = algos.gen_config(rng, depth=2 if rng.random() < 0.7 else 1, allow_standin=standin)
+    if rng.random() < 0.2:
+        config = algos.gen_factory(rng)
+        standin = False
     if not algos.needs_cplex(config):
         standin = standin and rng.random() < 0.5
     nmax = 5 if algos.uses_solver(config) else 7
@@ -47,7 +53,14 @@ def gen(rng, index, tier):
 def fixed_cases(tier):
     uni = {"b": [0, 2, 2, 0, 2, 2], "t": [2, 2, 0, 2, 2, 0], "scale": 2, "family": "unifying"}
     meta = {"family": "fixed", "kind": "int"}
-    return [{"config": ["bioco"], "scheme": uni, "complete": [[[0], [1]]], "incomplete": [[[0], [1]], [[1]]], "meta": meta}]
+    ind = {"b": [0, 2, 2, 0, 0, 0], "t": [2, 2, 0, 0, 0, 0], "scale": 2, "family": "induced"}
+    res = [{"config": ["bioco"], "scheme": uni, "complete": [[[0], [1]]], "incomplete": [[[0], [1]], [[1]]], "meta": meta}]
+    # the selector, every enum member with default parameters, under a scheme Borda / PickAPerm do not both accept
+    for v in range(8):
+        for sch in (uni, ind):
+            res.append({"config": ["factory", v, "none", None], "scheme": sch, "complete": [[[0], [1]], [[1], [0]]],
+                        "incomplete": [[[0], [1], [2]], [[1], [0]]], "meta": meta})
+    return res
 
 
 def _run(alg, raw, sch, coder_needed=True):
@@ -67,12 +80,28 @@ def _run(alg, raw, sch, coder_needed=True):
 def impl(case):
     try:
         sch = lib.make_scheme(case["scheme"])
-        alg = algos.make(case["config"])
+        fac = {}
+        if case["config"][0] == "factory":
+            from corankco.algorithms.algorithm_choice import Algorithm
+            fac = {"get_all": [a.value for a in Algorithm.get_all()],
+                   "compatible": [a.value for a in Algorithm.get_all_compatible_with_any_scoring_scheme()]}
+            try:
+                alg = algos.make(case["config"])
+            except Exception as exc:  # noqa: BLE001
+                fac["factory_err"] = type(exc).__name__ + ":" + str(exc)[:160]
+                return {"factory": fac}
+            fac["class"] = type(alg).__name__
+            fac["built"] = algos.term_of_instance(alg)
+        else:
+            alg = algos.make(case["config"])
         try:
             rel = bool(alg.is_scoring_scheme_relevant_when_incomplete_rankings(sch))
         except Exception as exc:  # noqa: BLE001
             rel = "err:" + type(exc).__name__
-        return {"relevant": rel, "complete": _run(alg, case["complete"], sch), "incomplete": _run(alg, case["incomplete"], sch)}
+        out = {"relevant": rel, "complete": _run(alg, case["complete"], sch), "incomplete": _run(alg, case["incomplete"], sch)}
+        if fac:
+            out["factory"] = fac
+        return out
     except Exception as exc:  # noqa: BLE001
         return {"err": "other:" + type(exc).__name__ + ":" + str(exc)[:200]}
 
@@ -80,10 +109,14 @@ def impl(case):
 def ops(case, out):
     if "err" in out:
         return []
+    if "factory" in out and "factory_err" in out["factory"]:
+        return [("c14.factory", algos.model_term(case["config"]))]
     res = [("c14.relevant", [algos.model_term(case["config"]), lib.scheme_tree(case["scheme"])])]
     for k in ("complete", "incomplete"):
         if "rankings" in out[k]:
             res.append(("c03.holds", [out[k]["obs"], [1, out[k]["rankings"]]]))
+    if "factory" in out:
+        res.append(("c14.factory", algos.model_term(case["config"])))
     return res
 
 
@@ -92,9 +125,23 @@ def judge(case, out, answers):
             "cplex:" + case.get("cplex", "absent")]
     if "err" in out:
         return {"agree": False, "holds": False, "diff": out["err"], "nontrivial": False, "tags": tags + ["impl-error"]}
-    mrel, mref_inc, mref_comp, exact_ref = answers[0]
     diff = []
     holds = True
+    fac = out.get("factory")
+    if fac is not None:
+        tags.append("selector")
+        mterm, mcompat, mall, mcomp = answers[-1]
+        if fac["get_all"] != mall:
+            diff.append("selector get_all: model %s impl %s" % (mall, fac["get_all"]))
+        if fac["compatible"] != mcomp:
+            diff.append("selector compatible list: model %s impl %s" % (mcomp, fac["compatible"]))
+        if "factory_err" in fac:
+            return {"agree": False, "holds": False, "nontrivial": True, "tags": tags + ["selector:fails"],
+                    "diff": "get_algorithm(%s, %s) fails with %s although the class the member names accepts these parameters"
+                            % (algos.FACTORY_NAMES[case["config"][1]], case["config"][2:], fac["factory_err"])}
+        if fac["built"] != mterm:
+            diff.append("selector builds: model %s impl %s (%s)" % (mterm, fac["built"], fac["class"]))
+    mrel, mref_inc, mref_comp, exact_ref = answers[0]
     if out["relevant"] != bool(mrel):
         diff.append("relevant: model %s impl %s" % (bool(mrel), out["relevant"]))
     if not isinstance(out["relevant"], bool):
@@ -129,17 +176,27 @@ def judge(case, out, answers):
             holds = False
             diff.append("declared not relevant but the incomplete dataset is accepted")
         tags.append("incomplete:accepted")
+    if fac is not None and case["config"][1] in fac["compatible"] and case["config"][2] in ("none", "empty"):
+        # the library's own declaration "compatible with any scoring scheme" must be truthful
+        if out["relevant"] is not True:
+            holds = False
+            diff.append("%s is listed by get_all_compatible_with_any_scoring_scheme() but get_algorithm gives a %s that declares "
+                        "this scheme not relevant" % (algos.FACTORY_NAMES[case["config"][1]], fac["class"]))
+        if "err" in inc:
+            holds = False
+            diff.append("%s is listed as compatible with any scoring scheme but refuses / fails on the incomplete dataset: %s"
+                        % (algos.FACTORY_NAMES[case["config"][1]], inc["err"]))
     # model's refusal guard vs implementation (upper bound for ParCons)
     if bool(mref_comp):
         diff.append("model predicts a refusal on complete data")
     if exact_ref and ("err" in inc) != bool(mref_inc):
         diff.append("refusal on incomplete data: model %s impl %s" % (bool(mref_inc), inc.get("err")))
     tags.append("relevant:%s" % out["relevant"])
-    nested = case["config"][0] in ("bioconsert", "parcons")
+    nested = case["config"][0] in ("bioconsert", "parcons", "factory")
     nontrivial = nested or case["scheme"]["family"].startswith("near")
     if nested:
         tags.append("nested")
-    return {"agree": not diff or holds is False and not [d for d in diff if d.startswith("relevant: model") or d.startswith("refusal on") or d.startswith("model predicts")],
+    return {"agree": not diff or holds is False and not [d for d in diff if d.startswith("relevant: model") or d.startswith("refusal on") or d.startswith("model predicts") or d.startswith("selector")],
             "holds": holds, "diff": "; ".join(diff)[:2000], "nontrivial": nontrivial, "tags": tags}
 
 
